@@ -15,6 +15,8 @@ import XpDriver.C09
 import XpDriver.C05
 import XpDriver.C16
 import XpDriver.C17
+import XpDriver.C01
+import XpDriver.C04
 open Lean Xp Xp.Proto
 
 def dispatch (op : String) (j : Json) : R Json :=
@@ -58,6 +60,8 @@ def dispatch (op : String) (j : Json) : R Json :=
   | "gather" => Ops.gatherOp j
   | "cf" => Ops.cf j
   | "kleor" => Ops.kleor j
+  | "c01" => Ops.c01 j
+  | "c04" => Ops.c04 j
   | _ => throw "bad-op"
 
 def step (line : String) : String :=
